@@ -14,7 +14,9 @@
    filepath.WalkDir(root, fn)                      →  [fs_walk_dir] (callback with explicit state: the
                                                       captured variables it assigns), visiting order
                                                       and SkipDir semantics of path/filepath.walkDir
-   os.Open + bufio.Scanner                         →  [fs_open] (the lines)
+   os.Open + bufio.NewReader                       →  [fs_open] (the bytes, or the read error)
+   declaresGoPackage(reader)                       →  [scan_reader] = ProtoLex.scan_go_package
+   for i, x := range xs                            →  loop_range over [enumerate 0 xs]
    os.Lstat / os.ReadDir / fs.FileInfoToDirEntry   →  [fs_lstat] / [fs_read_dir] / identity
    d.IsDir() / d.Type().IsRegular() / d.Name()     →  [is_dir] / [is_regular] / [node_name]
    gencommon.PackageNameFromPath                   →  [pkg_name_from_path] (oracle of the world)
@@ -43,8 +45,6 @@ Definition is_regular (n : node) : bool :=
   match n with File _ _ r => r | Dir _ _ => false end.
 Definition node_content (n : node) : string :=
   match n with File _ c _ => c | Dir _ _ => "" end.
-(* what bufio.Scanner yields of the opened path *)
-Definition node_lines (n : node) : list string := content_lines (node_content n).
 
 Inductive gerror : Type := ENil | ESkipDir | EFail.
 Definition err_is_nil (e : gerror) : bool := match e with ENil => true | _ => false end.
@@ -94,9 +94,27 @@ Definition fs_read_dir (W : world) (s : string) : list node * gerror :=
   | _ => ([], EFail)
   end.
 
-(* os.Open followed by bufio.Scanner: the lines; a directory opens but yields no line *)
-Definition fs_open (W : world) (s : string) : list string * gerror :=
-  match fs_resolve W s with Some n => (node_lines n, ENil) | None => ([], EFail) end.
+(* an opened file seen through bufio.Reader: its bytes, or the error that reading it gives
+   (a directory opens, reading it fails) *)
+Definition reader : Type := (string * gerror)%type.
+Definition fs_open (W : world) (s : string) : reader * gerror :=
+  match fs_resolve W s with
+  | Some (File _ c _) => ((c, ENil), ENil)
+  | Some (Dir _ _) => (("", EFail), ENil)
+  | None => (("", ENil), EFail)
+  end.
+
+(* declaresGoPackage(r) — the byte scanner, modelled in ProtoLex.v ([scan_go_package]) and tied to
+   the code by the exhaustive scan stream of the check (it is not translated) *)
+Definition scan_reader (r : reader) : bool * gerror :=
+  if err_is_nil (snd r) then (scan_go_package (fst r), ENil) else (false, snd r).
+
+(* for i, x := range xs *)
+Fixpoint enumerate (k : Z) (xs : list string) : list (Z * string) :=
+  match xs with
+  | [] => []
+  | x :: r => (k, x) :: enumerate (k + 1) r
+  end.
 
 Definition pkg_name_from_path (W : world) (s : string) : string * gerror :=
   match w_pkg W s with Ok k => (k, ENil) | Err => ("", EFail) end.
